@@ -56,7 +56,11 @@ m = {
  "not_applicable": [{"property_id": p, "reason": r} for p, r in NA],
  "notes": "All claims are bounded: each evidence sample states its bound. Exit 2 = inconclusive (timeout, solver memory, unsatisfied cover, unreproduced counterexample), exit 3 = overlay does not compile against the tree. Fixed defects are listed in known_findings.json (fixed:), the one unrepaired finding (BitVectorMut::get_bits >=, asserted by the unedited suite) under findings.",
 }
+PENDING = set(os.environ.get("PENDING","").split(",")) - {""}
 for pid in sorted(C):
+    if pid in PENDING:
+        m["not_applicable"].append({"property_id": pid, "reason": "check built (see DESIGN.md) - final timing run pending in this session; not claimed in this snapshot"})
+        continue
     text, tech, ref = C[pid]
     m["checks"].append({"property_id": pid, "quick_cmd": "bin/check %s --tier quick" % pid, "thorough_cmd": "bin/check %s --tier thorough" % pid,
                         "evidence_file": "evidence/%s.json" % pid, "replay_cmd_template": "bin/check %s --replay {path}" % pid, "engine": "kani-cbmc",
